@@ -183,7 +183,7 @@ impl Prop for C15 {
         "C15"
     }
     fn rule(&self) -> String {
-        "every prefix of dictionary words typed through the Probhat layout via a reverse key map computed from the layout file (every 12th word in quick, every word in thorough), \
+        "every prefix of dictionary words typed through the Probhat layout via a reverse key map computed from the layout file (every 12th word in quick plus every word that occurs more than once in the data, every word in thorough), \
          plus the half-word wrapped in 7 punctuation/quote wrappings, each in 1 (quick, rotating) / 4 (thorough) of 8 contexts over subsets of {traditional joining, smart quotes, English, ANSI}; \
          the list returned after every key is judged. distinct_nontrivial = distinct (composed text, options) pairs whose list was judged."
             .into()
@@ -222,12 +222,20 @@ impl Prop for C15 {
         let mut words: Vec<&String> = o.tables.values().flatten().collect();
         words.sort();
         words.dedup();
+        // words that occur more than once in the data (within a table or across tables) are always included:
+        // they are what the duplicate suppression exists for
+        let mut seen: std::collections::HashMap<&String, usize> = std::collections::HashMap::new();
+        for w in o.tables.values().flatten() {
+            *seen.entry(w).or_insert(0) += 1;
+        }
+        let repeated: HashSet<&String> = seen.iter().filter(|(_, n)| **n > 1).map(|(w, _)| *w).collect();
+        out.max("words_occurring_more_than_once_in_the_data", repeated.len() as u64);
         let step = env.tier.pick(12, 1);
         let per = env.tier.pick(1, 4);
         let mut t = Tally::default();
         let mut n = 0usize;
         for (wi, w) in words.iter().enumerate() {
-            if wi % step != (env.seed as usize) % step {
+            if wi % step != (env.seed as usize) % step && !repeated.contains(*w) {
                 continue;
             }
             let mine = env.mine(n);
